@@ -2,7 +2,7 @@
    DESIGN.md §3 C04. *)
 From Coq Require Import List NArith ZArith Bool.
 Import ListNotations.
-From STFS Require Import Str Db Tape Index Ops Fs Diff TapeLemmas Append.
+From STFS Require Import Str Db Tape Index Ops Fs Diff TapeLemmas Append C04Inv.
 Open Scope N_scope.
 
 (* (record, block) computed by the indexer from a block offset: block < record size, and the
@@ -26,4 +26,22 @@ Proof.
   intros c h s off m H. destruct (final_extends c h s) as [suf ->]. apply member_at_app. exact H.
 Qed.
 
+(* for EVERY history of calls (successful or failing, any environment): every row of the index, live or
+   tombstoned, has block components below the record size, its content position and its last-known
+   position are starts of records on the tape, and the last-known position is never before the
+   content position *)
+Theorem C04_positions_wf : forall c h, 0 < c_rs c ->
+  forall r, In r (rows (db (final c init_sys h))) ->
+    r_blk r < c_rs c /\ r_lkblk r < c_rs c /\
+    (exists m, member_at (tp (final c init_sys h)) (off_of (c_rs c) (r_rec r) (r_blk r)) = Some m) /\
+    (exists m, member_at (tp (final c init_sys h)) (off_of (c_rs c) (r_lkrec r) (r_lkblk r)) = Some m).
+Proof. intros c h H. exact (C04_pos_wf_reachable c h H). Qed.
+
+Theorem C04_lastknown_not_before_content : forall c h, 0 < c_rs c ->
+  forall r, In r (rows (db (final c init_sys h))) ->
+    off_of (c_rs c) (r_rec r) (r_blk r) <= off_of (c_rs c) (r_lkrec r) (r_lkblk r).
+Proof. intros c h H. exact (C04_pos_ord_reachable c h H). Qed.
+
 Print Assumptions C04_positions_stable.
+Print Assumptions C04_positions_wf.
+Print Assumptions C04_lastknown_not_before_content.
